@@ -224,6 +224,10 @@ def monitor_c28(ops, outs):
             if f.get("enc") == "1" and not started:
                 last = [p for p in pdus_of(op)]
                 kind = "bare-start-enc-rsp" if any(is_ctrl(p, 0x06, 1) for p in last) else "other"
+                if f.get("st") == "disconnecting" and key_supplied:
+                    # a key was supplied, but LL_START_ENC_REQ was dropped by the stopped PDU buffer
+                    return k, "C28:start-enc-req-dropped-while-disconnecting", \
+                        "op %d `%s`: after disconnect() + LL_TERMINATE_IND the PDU buffer drops LL_START_ENC_REQ, LL_START_ENC_RSP still reports the link encrypted for its last event (%s)" % (k, op[:60], line)
                 return k, "C28:encrypted-without-key-and-start-req:" + kind, \
                     "op %d `%s`: link reported encrypted (%s) but no LL_ENC_REQ with a key of the bond data base followed by LL_START_ENC_REQ and LL_START_ENC_RSP happened on this connection" % (k, op[:60], line)
             if f.get("enc") == "0" and f.get("st") == "advertising" and (f.get("rxe") != "0" or f.get("txe") != "0"):
@@ -562,11 +566,17 @@ def monitor_c29(ops, outs):
     agree with the link layer's state, and contain one callback per event-producing PDU"""
     st = "idle"
     version_seen = False
+    early_disconnect = False    # disconnect() was called before the first connection event
+    EARLY = "C29:disconnect-before-established:established-never-reported"
     for k, (op, line) in enumerate(zip(ops, outs)):
         f = fields(line)
         if "bad" in f:
             continue
         cbs = cb_list(f)
+        if op.startswith("api disconnect") and st == "requested":
+            early_disconnect = True
+        if st == "idle":
+            early_disconnect = False
         # completeness per PDU
         if op.startswith("ev") and st != "idle":
             want = []
@@ -584,6 +594,8 @@ def monitor_c29(ops, outs):
             if len(got) < len(want) and got == want[:len(got)]:
                 lost = want[len(got)]
                 key = "C29:ring-overflow:%s-lost" % lost if len(got) == 4 else "C29:event-lost:" + lost
+                if early_disconnect and lost == "established":
+                    return k, EARLY, "op %d `%s`: disconnect() before the first connection event: `established` is never reported, later callbacks follow `requested` directly" % (k, op[:60])
                 return k, key, "op %d `%s`: %d lifecycle events in one radio callback, reported only %s — `%s` never reported" % (k, op[:70], len(want), got, lost)
         for c in cbs:
             name = c.split(":")[0]
@@ -598,14 +610,16 @@ def monitor_c29(ops, outs):
                 nxt = "idle"
             elif st == "established" and name in OTHER:
                 nxt = "established"
+            if nxt is None and early_disconnect and st == "requested":
+                return k, EARLY, "op %d: disconnect() before the first connection event: callback `%s` follows `requested` without `established`" % (k, c)
             if nxt is None:
                 return k, "C29:order:%s-in-%s" % (name, st), "op %d: callback `%s` while the trace so far is in state %s" % (k, c, st)
             st = nxt
             if st == "idle":
                 version_seen = False
         phase = f.get("st")
-        agree = {"advertising": "idle", "connecting": "requested"}.get(phase, "established")
-        if agree != st:
+        agree = {"advertising": ("idle",), "connecting": ("requested",), "disconnecting": ("requested", "established")}.get(phase, ("established",))
+        if st not in agree:
             return k, "C29:state-not-reported:%s-vs-%s" % (phase, st), "op %d: link layer is %s but the callbacks so far say %s" % (k, phase, st)
     return None
 
@@ -698,7 +712,7 @@ PROPS = {
     "C29": dict(
         theorems=["BluetoeModel.LlControl.ring_reports_first_four",
                   "BluetoeModel.LlControl.ring_empty_between_callbacks",
-                  "BluetoeModel.LlControl.callbacks_at_most_four_per_callback"],
+                  "BluetoeModel.LlControl.ring_pushes"],
         witnesses=["BluetoeModel.LlControl.overflow_drops_witness",
                    "BluetoeModel.LlControl.callbacks_well_ordered_witness"],
         imports=["BluetoeModel.LlControl.PropsC29"],
